@@ -10,6 +10,46 @@ def mark(s: str) -> None:
     os.write(2, f"MARK {s}\n".encode())
 
 
+def fault_life(root: str, kind: str, ds, tables) -> None:
+    """an fsync of one file kind fails (EIO, nothing is flushed) during an append: the append must not be
+    acknowledged with a pointer to unflushed content"""
+    pat = {"metadata": ".metadata.json", "manifest_list": "manifest_list_", "manifest": ".manifest_", "data": ".parquet",
+           "hint": "version-hint", "marker": ".inflight"}[kind]
+    real_fsync = os.fsync
+    state = {"armed": False, "fired": 0}
+
+    def fsync(fd):
+        if state["armed"] and not state["fired"]:
+            try:
+                p = os.readlink(f"/proc/self/fd/{fd}")
+            except OSError:
+                p = ""
+            if pat in p and (kind not in ("manifest", "manifest_list", "data") or ".inflight" not in p) \
+                    and (kind != "manifest" or "manifest_list_" not in p):
+                state["fired"] = 1
+                os.write(2, b"MARK fault_fired\n")
+                raise OSError(5, "Input/output error (injected: nothing was flushed)")
+        return real_fsync(fd)
+
+    os.fsync = fsync
+    mark("create")
+    t = ds.create_table(root, schema=tables.std_schema())
+    mark("append")
+    t.append_records(tables.rows([1, 2]))
+    state["armed"] = True
+    mark("append_with_fsync_fault")
+    try:
+        t.append_records(tables.rows([3, 4]))
+        mark("faulted_append_ACKED")
+    except Exception as e:  # noqa
+        mark("faulted_append_RAISED " + type(e).__name__)
+    state["armed"] = False
+    mark("append_after_fault")
+    ds.load_table(root).append_records(tables.rows([5]))
+    mark("end")
+    os._exit(0)
+
+
 def main() -> None:
     root = sys.argv[1]
     variant = sys.argv[2] if len(sys.argv) > 2 else "a"
@@ -18,6 +58,9 @@ def main() -> None:
     setup_repo_path()
     import datashard as ds
     from vf import tables
+
+    if variant.startswith("fault:"):
+        return fault_life(root, variant.split(":", 1)[1], ds, tables)
 
     mark("create")
     t = ds.create_table(root, schema=tables.std_schema())
